@@ -152,6 +152,11 @@ func (c10) Run(tp *Tape, opt RunOpt) *RunOut {
 		cfg.StarveFrom = tp.Draw(LaneWork, 10)
 		cfg.StarveLen = 5 + tp.Draw(LaneWork, 40)
 	}
+	if tp.Chance(LaneWork, 1, 4) {
+		// PCT policy instead of the random walk: priorities with 0-2 change points
+		cfg.PCTDepth = 1 + tp.Draw(LaneWork, 3)
+		cfg.PCTSpan = []int{30, 120, 600}[tp.Draw(LaneWork, 3)]
+	}
 	s := NewSim(tp, cfg)
 	s.RecPoints = []string{"future.body-returned"}
 	e := NewEnv()
@@ -547,7 +552,7 @@ func (c10) Run(tp *Tape, opt RunOpt) *RunOut {
 	out.Nontrivial = len(s.tasks) >= 3 && s.Switches > 2 && windows > 0
 	if opt.Full {
 		out.Sample = map[string]interface{}{"program": rendering, "step_cost": cfg.StepCost.String(), "creator_deadline": creatorDeadline.String(),
-			"cfg": map[string]int{"Q": cfg.Q, "WindowBias": cfg.WindowBias, "StarveID": cfg.StarveID}}
+			"cfg": map[string]int{"Q": cfg.Q, "WindowBias": cfg.WindowBias, "StarveID": cfg.StarveID, "PCTDepth": cfg.PCTDepth}}
 	}
 	return out
 }
